@@ -59,7 +59,7 @@ def history_options(draw, mode):
     hand-over exactly on the per-point buffers' block boundary)."""
     if mode == 'block':
         return {'clm': 0.02, 'crz': 0.02, 'des': draw(st.sampled_from([0.02, 0.25, 0.5])),
-                'iterate': draw(st.sampled_from([True, True, False])), 'max_iters': draw(st.sampled_from([1, 2, 3, 3, 8])),
+                'iterate': draw(st.sampled_from([True, True, False])), 'max_iters': draw(st.sampled_from([1, 2, 3, 3, 8, 0])),
                 'reltol': draw(st.sampled_from([1e-9, 1e-6, 1e-5, 1e-4, 1e-3, 1e-2, 0.05, 0.2]))}
     weather = mode == 'weather'
     n = st.integers(2, 4) if weather else st.one_of(st.integers(2, 12), st.integers(2, 25))
@@ -67,7 +67,7 @@ def history_options(draw, mode):
     return {
         'clm': draw(frac), 'crz': draw(frac), 'des': draw(frac),
         'iterate': draw(st.booleans()),
-        'max_iters': draw(st.integers(1, 2) if weather else st.one_of(st.integers(1, 5), st.sampled_from([8, 12]))),
+        'max_iters': draw(st.integers(1, 2) if weather else st.one_of(st.integers(1, 5), st.sampled_from([8, 12, 0]))),
         # tight tolerances (the leftover of the last descent segment alone is 1e-4..1e-5 of the trip fuel) to loose ones
         'reltol': draw(st.sampled_from([1e-9, 1e-6, 1e-5, 1e-4, 1e-3, 1e-2, 1e-2, 0.05, 0.2])),
     }
